@@ -1,8 +1,10 @@
 package c10
 
 import (
+	"crypto/tls"
 	"fmt"
 	"net"
+	"runtime/debug"
 	"strings"
 	"sync"
 	"testing"
@@ -59,6 +61,12 @@ func TestC10(t *testing.T) {
 				cases = append(cases, mon.CaseSpec{Name: "stall/" + tr + "/" + side, Spec: spec{Kind: "stall", Tran: tr, Act: side}})
 			}
 		}
+		for i := 0; i < 6; i++ {
+			cases = append(cases, mon.CaseSpec{Name: "race/listen-vs-close", Spec: spec{Kind: "race", Proto: []string{"pair", "rep", "sub"}[i%3], Act: "listen", Yield: rnd.Intn(2) == 0}})
+		}
+		for _, tr := range []string{"tcp", "ipc", "tls+tcp"} {
+			cases = append(cases, mon.CaseSpec{Name: "acceptbusy/" + tr, Spec: spec{Kind: "acceptbusy", Tran: tr}})
+		}
 		for _, target := range []string{"context", "dialer", "listener", "pipe"} {
 			for _, p := range []string{"req", "rep", "sub", "surveyor", "respondent", "pair", "bus"} {
 				if target == "context" && (p == "pair" || p == "bus") {
@@ -87,6 +95,10 @@ func TestC10(t *testing.T) {
 			runStall(c, sp)
 		case "sibling":
 			runSibling(c, sp)
+		case "race":
+			runRaceListen(c, sp)
+		case "acceptbusy":
+			runAcceptBusy(c, sp)
 		}
 		if !c.Failed() {
 			census(c, sp, base, fds)
@@ -919,4 +931,138 @@ func leakTop(left []mon.G) string {
 		top = "?"
 	}
 	return top
+}
+
+// runRaceListen: Listen racing Close.  Whatever Listen returns, once both calls have returned the
+// address must not stay bound: a closed socket has no listening address.
+func runRaceListen(c *mon.Case, sp spec) {
+	ctx := "race/listen-vs-close"
+	for round := 0; round < 12 && !c.Failed(); round++ {
+		s := hx.MustSock(c, sp.Proto)
+		name := hx.Uniq("c10r")
+		L := vt.L(name)
+		L.SetNewDelay(time.Duration(200+c.Rand.Intn(1500)) * time.Microsecond)
+		lk := mon.Go("Listen", func() (interface{}, error) { return nil, s.Listen(vt.Addr(name)) })
+		mon.Sleep(time.Duration(c.Rand.Intn(1400)) * time.Microsecond)
+		ck := mon.Go("Close", func() (interface{}, error) { return nil, s.Close() })
+		if !c.AwaitOrViolate("close-blocks:"+ctx, "Close racing Listen returning", ck.Done, mon.AwaitOpts{MaxTimer: 2 * time.Millisecond}) {
+			return
+		}
+		if !c.AwaitOrViolate("later-call-blocks:"+ctx+"/Listen", "Listen racing Close returning", lk.Done, mon.AwaitOpts{MaxTimer: 2 * time.Millisecond}) {
+			return
+		}
+		_, lerr, _ := lk.Result()
+		// settle: an accept loop that was started must wind down
+		var listening, closed bool
+		c.AwaitOrViolate("address-stays-bound-after-close:"+ctx, fmt.Sprintf("the endpoint of a Listen (returned %v) that raced with Close being released", lerr), func() bool {
+			listening, closed, _ = L.State()
+			return !listening || closed
+		}, mon.AwaitOpts{MaxTimer: 2 * time.Millisecond})
+		if lerr != nil && lerr != mangos.ErrClosed {
+			c.Violate("later-call-result:"+ctx+"/Listen", "Listen racing Close returned %v (want nil or the closed error)", lerr)
+		}
+		c.Count("listen_close_races", 1)
+		if lerr == nil {
+			c.Count("listen_won_race", 1)
+		}
+		vt.Forget(name)
+	}
+	c.Nontrivial()
+}
+
+// runAcceptBusy: connections that finished the SP handshake but have not been accepted yet (the
+// accept loop is busy in the application's Attaching hook) must be closed by Socket.Close too.
+func runAcceptBusy(c *mon.Case, sp spec) {
+	tr := sp.Tran
+	ctx := "acceptbusy/" + tr
+	// A connection the library merely forgets is eventually closed by the garbage collector's
+	// finalizer; the property wants it closed by Close.  Keep the collector out of the picture.
+	oldGC := debug.SetGCPercent(-1)
+	defer debug.SetGCPercent(oldGC)
+	s := hx.MustSock(c, "pull")
+	gate := make(chan struct{})
+	entered := make(chan struct{}, 8)
+	s.SetPipeEventHook(func(ev mangos.PipeEvent, p mangos.Pipe) {
+		if ev == mangos.PipeEventAttaching {
+			entered <- struct{}{}
+			<-gate // the accept loop is held here
+		}
+	})
+	l, err := s.NewListener(hx.ListenAddr(tr), lopts(tr))
+	if err == nil {
+		err = l.Listen()
+	}
+	if err != nil {
+		c.Inconclusive("setup %s: %v", ctx, err)
+		return
+	}
+	a := l.Address()
+	host := a[strings.Index(a, "://")+3:]
+	dial := func() (net.Conn, error) {
+		switch tr {
+		case "tcp":
+			return net.Dial("tcp", host)
+		case "tls+tcp":
+			_, cc := hx.TLSConfigs()
+			return tls.Dial("tcp", host, cc)
+		}
+		return net.Dial("unix", host)
+	}
+	type peer struct {
+		cn     net.Conn
+		closed chan struct{}
+	}
+	var peers []*peer
+	defer func() {
+		for _, p := range peers {
+			p.cn.Close()
+		}
+	}()
+	for i := 0; i < 3; i++ {
+		var cn net.Conn
+		dk := mon.Go("raw-dial", func() (interface{}, error) { var e error; cn, e = dial(); return nil, e })
+		if !c.AwaitOrViolate("harness:raw-dial-stuck", "raw peer connecting", dk.Done, mon.AwaitOpts{}) {
+			return
+		}
+		if _, e, _ := dk.Result(); e != nil {
+			c.Inconclusive("setup %s: raw dial: %v", ctx, e)
+			return
+		}
+		p := &peer{cn: cn, closed: make(chan struct{})}
+		peers = append(peers, p)
+		// a PUSH peer: send our header, read the socket's header, then block reading until the library closes
+		cn.Write([]byte{0, 'S', 'P', 0, 0, 0x50, 0, 0})
+		go func() {
+			buf := make([]byte, 64)
+			for {
+				if _, err := cn.Read(buf); err != nil {
+					close(p.closed)
+					return
+				}
+			}
+		}()
+		if i == 0 {
+			// wait until the accept loop is inside the hook with the first connection
+			k := mon.Go("hook-entered", func() (interface{}, error) { <-entered; return nil, nil })
+			if !c.AwaitOrViolate("harness:hook-not-entered", "accept loop reaching the Attaching hook", k.Done, mon.AwaitOpts{}) {
+				return
+			}
+		}
+	}
+	mon.Sleep(20 * time.Millisecond) // let the 2nd and 3rd handshakes complete and queue up
+	ck := mon.Go("Close", func() (interface{}, error) { return nil, s.Close() })
+	if !c.AwaitOrViolate("close-blocks:"+ctx, ctx+": Close while the accept loop is busy in the hook", ck.Done, mon.AwaitOpts{}) {
+		close(gate)
+		return
+	}
+	close(gate)
+	for i, p := range peers {
+		i, p := i, p
+		k := mon.Go("peer-closed", func() (interface{}, error) { <-p.closed; return nil, nil })
+		if !c.AwaitOrViolate("conn-kept-after-close:"+ctx, fmt.Sprintf("%s: connection %d (handshake complete, %s) being closed by Socket.Close", ctx, i, map[bool]string{true: "in the Attaching hook", false: "not yet accepted"}[i == 0]), k.Done, mon.AwaitOpts{}) {
+			return
+		}
+	}
+	c.Count("unaccepted_connections_closed", len(peers)-1)
+	c.Nontrivial()
 }
